@@ -493,7 +493,8 @@ class CircuitTemplate(AbstractBaseTemplate):
         outputs_final = {}
         for key, out_info in output_map.items():
             if type(out_info) is dict:
-                outputs_final[key] = {key2: _squeeze_units(outputs.pop(key2)[:, idx]) for key2, idx in out_info.items()}
+                # do not pop: another wildcard key may expand to the same variable
+                outputs_final[key] = {key2: _squeeze_units(outputs[key2][:, idx]) for key2, idx in out_info.items()}
             else:
                 raw = outputs.pop(key)[:, out_info]
                 if hasattr(out_info, '__len__') and len(out_info) > 1:
